@@ -52,7 +52,12 @@ Proof. exact Proofs.C40.be_value_be_bytes. Qed.
 Print Assumptions word_roundtrip.
 
 (* the two key serialisations of the client (convertPubKeyToChainFormat for the result and the
-   wallet id, elliptic.Marshal minus the 04 byte for the hashes) are the same 64 bytes *)
+   wallet id, elliptic.Marshal minus the 04 byte for the hashes) are the same 64 bytes: each
+   coordinate LEFT-padded to 32 bytes.  Stated for coordinates of ANY size below 2^256, in
+   particular short ones (below 2^248, where big.Int.Bytes() has fewer than 32 bytes); the
+   preimage theorems below have the same premise.  Proofs.C40.ex_short_coordinate_key is the
+   instance at a real secp256k1 key whose X has two leading zero bytes, with the right-padded
+   serialisation shown to differ. *)
 Theorem key_formats_agree :
   forall x y, x < two256 -> y < two256 ->
     option_map (@tl N) (marshal_uncompressed x y) = pubkey_chain_format x y
